@@ -119,6 +119,7 @@ def native_helpers(LOG, params, spec):
         "not_pending_at_callback": lambda name: (lambda st: st is not None and name not in st)(at_cb("names")),
         "handle_dead_at_callback": lambda h: (lambda st: st is not None and h.ident not in st)(at_cb("live_handles")),
         "drained_after_callback": drained,
+        "n_drains": lambda: len([c for c in LOG if c["method"] == "process_event_queue"]),
         "others_untouched": lambda *a: True, "live_same_except": lambda *a: True, "nothing_changed": lambda: True,
         "__state_hook__": lambda: {"names": set(this.delays.keys()),
                                    "live_handles": set(h.ident for h in HANDLES if h.live)},
